@@ -269,6 +269,30 @@ fn cases(tier: Tier) -> Vec<Case> {
             }
         }
     }
+    if tier == Tier::Thorough {
+        // every response-topic length 1..=300 and around the 2-byte varint boundary of the property block, every
+        // correlation length 0..=300, borrowed and through a roomy owned target
+        let tls: Vec<usize> = (1..=300).chain([16370, 16383, 16384, 16385, 32768, 65534]).collect();
+        for &t in &tls {
+            for cl in [None, Some(0usize), Some(3), Some(255)] {
+                for position in 0..4u8 {
+                    for owned in [None, Some(6usize)] {
+                        v.push(Case { topic_len: Some(t), corr_len: cl, position, in_qos: (t % 2) as u8, add_user_props: (t % 3) as u8, owned });
+                    }
+                }
+            }
+        }
+        let cls: Vec<usize> = (0..=300).chain([16370, 16383, 16384, 16385, 32768, 65534]).collect();
+        for &cl in &cls {
+            for t in [None, Some(1usize), Some(9), Some(130)] {
+                for position in 0..4u8 {
+                    for owned in [None, Some(6usize)] {
+                        v.push(Case { topic_len: t, corr_len: Some(cl), position, in_qos: (cl % 2) as u8, add_user_props: (cl % 3) as u8, owned });
+                    }
+                }
+            }
+        }
+    }
     for (k, (tc, cc)) in CAPS.iter().enumerate() {
         let mut tl: Vec<Option<usize>> = vec![None, Some(tc.saturating_sub(1).max(1)), Some(*tc)];
         if *tc < 65535 {
@@ -298,7 +322,7 @@ pub fn run(tier: Tier, caps: &Caps) -> Vec<FamilyReport> {
         "C20",
         cs.len() as u64,
         caps,
-        json!({"cases": cs.len(), "dimensions": "response topic {absent, 1, 2, 127, 128, 65535 bytes, multi-byte characters} x correlation data {absent, 0, 1, 128, 256 (all byte values), 65535 bytes} x position among other properties {first, last, between user properties, correlation first} x user properties added to the reply {0, 2} x inbound QoS; borrowed reply() published through a second real session; reply_owned::<T,C>() for 7 capacity pairs with topic and correlation lengths T-1, T, T+1 / C-1, C, C+1, published through the same session; reply decoded by the reference decoder"}),
+        json!({"cases": cs.len(), "dimensions": "response topic {absent, 1, 2, 127, 128, 65535 bytes, multi-byte characters} x correlation data {absent, 0, 1, 128, 256 (all byte values), 65535 bytes} x position among other properties {first, last, between user properties, correlation first} x user properties added to the reply {0, 2} x inbound QoS; borrowed reply() published through a second real session; reply_owned::<T,C>() for 7 capacity pairs with topic and correlation lengths T-1, T, T+1 / C-1, C, C+1, published through the same session; reply decoded by the reference decoder", "thorough_adds": if tier == Tier::Thorough { "every response-topic length 1..=300 and 16370/16383/16384/16385/32768/65534 x correlation {absent,0,3,255}; every correlation length 0..=300 and the same large values x topic {absent,1,9,130}; each x 4 positions x borrowed / owned<65535,65535>" } else { "-" }}),
         &|i| eval(&cs[i as usize]),
         &|i| serde_json::to_value(&cs[i as usize]).unwrap(),
     )]
